@@ -10,7 +10,7 @@ import numpy as np
 
 from vf import common
 
-OPS = ['reshuffle', 'local', 'onetime', 'apply', 'apply_reshuffle', 'map', 'slice', 'batch', 'concat', 'filter', 'catch']
+OPS = ['reshuffle', 'local', 'onetime', 'apply', 'apply_reshuffle', 'map', 'slice', 'batch', 'concat', 'filter', 'catch', 'tile2']
 RANDOM = {'reshuffle', 'local', 'onetime', 'apply', 'apply_reshuffle'}
 EPOCHS = 3
 
@@ -70,6 +70,8 @@ def build(prog, seed, kind, n=5):
                 ds = ds.apply(ApplyReshuffle(rng), lazy=True)
             elif op == 'catch':
                 ds = ds.catch()
+            elif op == 'tile2':
+                ds = ds.tile(2)
             elif op == 'map':
                 ds = ds.map(add1)
             elif op == 'slice':
@@ -141,7 +143,8 @@ def check_program(args):
                 st['transitions'] += EPOCHS
                 if ec != ea:
                     last_random = [op for op in prog if op in RANDOM][-1]
-                    shared = any(r in prog and 'concat' in prog[list(prog).index(r):] for r in ('reshuffle', 'apply_reshuffle'))
+                    shared = any(r in prog and any(c in prog[list(prog).index(r):] for c in ('concat', 'tile2'))
+                                 for r in ('reshuffle', 'apply_reshuffle'))
                     bad('copy-differs/reshuffle-object-shared-by-two-branches' if shared else
                         f'copy-differs/{last_random}' if len([op for op in prog if op in RANDOM]) == 1 else 'copy-differs',
                         f'copy() of a fresh build gives {ec}, the build gives {ea}', seed=seed, kind=kind)
@@ -298,6 +301,46 @@ def check_copies(res):
     return n
 
 
+PROC_OPS = ('reshuffle', 'onetime', 'map', 'tile2')
+PROC_BACKENDS = ('mp', 'dill_mp', 'multiprocessing', 'concurrent_mp')
+
+
+def check_process_backends(args):
+    """The same comparison behind the real process-pool backends.  Runs in the checker's main process: the forked
+    exploration workers are daemonic and may not have children."""
+    prog, seed, kind = args
+    st = collections.Counter()
+    viols = {}
+
+    def bad(key, what, **kw):
+        if key not in viols:
+            viols[key] = common.Violation('C13', key, f'pipeline {list(prog)} {kw}: {what}',
+                                          {'engine': 'differential-proc', 'prog': list(prog), **kw}).to_json()
+    scramble(seed)
+    a = build(prog, seed, kind)
+    if a is None:
+        return st, []
+    ea = epochs(a, k=2, salt=10)
+    if any(x.startswith('raises') for x in ea):
+        return st, []
+    for backend in PROC_BACKENDS:
+        scramble(seed + 8)
+        p = build(prog, seed, kind)
+        try:
+            pf = p.prefetch(2, 2, backend=backend)
+        except Exception as ex:       # noqa: BLE001
+            bad(f'prefetch-build-raises/{backend}', f'{type(ex).__name__}: {ex}', seed=seed, kind=kind)
+            continue
+        ep = epochs(pf, k=2, salt=130)
+        st['states'] += 1
+        st['transitions'] += 2
+        if any(x.startswith('raises') for x in ep):
+            bad(f'prefetch-raises/{backend}', f'prefetch(2,2,{backend!r}) gives {ep}', seed=seed, kind=kind)
+        elif ep != ea:
+            bad(f'prefetch-differs/{backend}', f'behind prefetch(2,2,{backend!r}): {ep}, plain: {ea}', seed=seed, kind=kind)
+    return st, list(viols.values())
+
+
 def programs(depth):
     for d in range(1, depth + 1):
         for prog in itertools.product(OPS, repeat=d):
@@ -317,12 +360,18 @@ def run(tier):
     for st, viols in common.pmap(check_program, [(p, seeds, kinds) for p in progs], chunksize=4):
         total.update(st)
         res.violations.extend(common.Violation.from_json(v) for v in viols)
+    proc = [p for p in progs if len(p) <= 2 and all(op in PROC_OPS for op in p)]
+    for p in proc:
+        for kind in kinds:
+            st, viols = check_process_backends((p, seeds[0], kind))
+            total.update(st)
+            res.violations.extend(common.Violation.from_json(v) for v in viols)
     n = check_copies(res)
     res.violations.sort(key=lambda v: (len(v.replay.get('prog', [])), v.key))
     res.coverage.update(
         states=total['states'] + n, transitions=total['transitions'] + n,
         traces_validated_against_impl=total['states'] + n, exhaustive=True, programs=len(progs),
-        not_a_pipeline=total['not_a_pipeline'],
+        not_a_pipeline=total['not_a_pipeline'], process_backend_programs=len(proc),
         rule=f'states = (pipeline with >= 1 random stage of depth <= {depth} over {OPS}, seed in {seeds[0]}..{seeds[-1]}, '
              f'RandomState | default_rng) that the library accepts, plus one state per (Dataset subclass, freeze flag) of the '
              f'copy() comparison; transitions = epochs compared',
@@ -339,7 +388,10 @@ def replay(data):
         check_copies(res)
         res.coverage.update(states=1, transitions=1)
         return res
-    st, viols = check_program((tuple(r['prog']), [r.get('seed', 0)], [r.get('kind', 'rs')]))
+    if r.get('engine') == 'differential-proc':
+        st, viols = check_process_backends((tuple(r['prog']), r.get('seed', 0), r.get('kind', 'rs')))
+    else:
+        st, viols = check_program((tuple(r['prog']), [r.get('seed', 0)], [r.get('kind', 'rs')]))
     res.violations = [common.Violation.from_json(v) for v in viols]
     res.coverage.update(states=max(1, st['states']), transitions=st['transitions'])
     return res
